@@ -2,6 +2,8 @@ import VirtioVerif.Model.Wire
 import VirtioVerif.Model.CmdQueue
 import VirtioVerif.Model.Gpu
 import VirtioVerif.Model.Edid
+import VirtioVerif.Model.Sound
+import VirtioVerif.Model.SmallDevs
 /-!
 # C20 — command/response drivers encode requests per spec and check every response
 
@@ -343,5 +345,355 @@ theorem order_prefix (dev : Dev) (s : St) (op : Op) :
     simp [ctrlCmds, fullSeq, changeSeq, hfb, Cmd.type] <;> decide)
 
 end Gpu
+
+/-! ## Sound: encoders, response checks, PCM chunking, the transfer loop -/
+namespace Sound
+open VirtioVerif.Sound VirtioVerif.CmdQueue
+
+macro "snd_enc" : tactic =>
+  `(tactic| (simp [specDecode, Spec.queryInfo, Spec.jackRemap, Spec.pcmHdr, Spec.pcmSetParams, Spec.pcmXfer,
+      encQueryInfo, encJackRemap, encPcmHdr, encPcmSetParams, encXferHdr, le8, le32, fieldAt, fromLE,
+      R_JACK_REMAP, R_PCM_SET_PARAMS, Spec.VIRTIO_SND_R_JACK_REMAP, Spec.VIRTIO_SND_R_PCM_SET_PARAMS] <;> omega))
+
+theorem spec_tables_contiguous :
+    contiguous Spec.queryInfo 0 16 ∧ contiguous Spec.jackRemap 0 16 ∧ contiguous Spec.pcmHdr 0 8
+    ∧ contiguous Spec.pcmSetParams 0 24 ∧ contiguous Spec.pcmXfer 0 4 ∧ contiguous Spec.pcmStatus 0 8
+    ∧ contiguous Spec.jackInfo 0 24 ∧ contiguous Spec.pcmInfo 0 32 ∧ contiguous Spec.chmapInfo 0 24 := by decide
+
+/-- the driver's item sizes and request codes are the specification's -/
+theorem sizes_and_codes :
+    JACK_INFO_SIZE = 24 ∧ PCM_INFO_SIZE = 32 ∧ CHMAP_INFO_SIZE = 24
+    ∧ R_JACK_INFO = Spec.VIRTIO_SND_R_JACK_INFO ∧ R_PCM_INFO = Spec.VIRTIO_SND_R_PCM_INFO
+    ∧ R_CHMAP_INFO = Spec.VIRTIO_SND_R_CHMAP_INFO ∧ R_PCM_PREPARE = Spec.VIRTIO_SND_R_PCM_PREPARE
+    ∧ R_PCM_RELEASE = Spec.VIRTIO_SND_R_PCM_RELEASE ∧ R_PCM_START = Spec.VIRTIO_SND_R_PCM_START
+    ∧ R_PCM_STOP = Spec.VIRTIO_SND_R_PCM_STOP ∧ S_OK = Spec.VIRTIO_SND_S_OK := by decide
+
+theorem enc_queryInfo (code start count size : Nat) (h0 : code < 2 ^ 32) (h1 : start < 2 ^ 32)
+    (h2 : count < 2 ^ 32) (h3 : size < 2 ^ 32) :
+    specDecode Spec.queryInfo (encQueryInfo code start count size) = [code, start, count, size]
+    ∧ (encQueryInfo code start count size).length = 16 := by snd_enc
+
+theorem enc_jackRemap (jack assoc seq : Nat) (h0 : jack < 2 ^ 32) (h1 : assoc < 2 ^ 32) (h2 : seq < 2 ^ 32) :
+    specDecode Spec.jackRemap (encJackRemap jack assoc seq) = [Spec.VIRTIO_SND_R_JACK_REMAP, jack, assoc, seq]
+    ∧ (encJackRemap jack assoc seq).length = 16 := by snd_enc
+
+theorem enc_pcmHdr (code stream : Nat) (h0 : code < 2 ^ 32) (h1 : stream < 2 ^ 32) :
+    specDecode Spec.pcmHdr (encPcmHdr code stream) = [code, stream] ∧ (encPcmHdr code stream).length = 8 := by
+  snd_enc
+
+theorem enc_pcmSetParams (stream buffer period features channels format rate : Nat)
+    (h0 : stream < 2 ^ 32) (h1 : buffer < 2 ^ 32) (h2 : period < 2 ^ 32) (h3 : features < 2 ^ 32)
+    (h4 : channels < 2 ^ 8) (h5 : format < 2 ^ 8) (h6 : rate < 2 ^ 8) :
+    specDecode Spec.pcmSetParams (encPcmSetParams stream buffer period features channels format rate)
+      = [Spec.VIRTIO_SND_R_PCM_SET_PARAMS, stream, buffer, period, features, channels, format, rate, 0]
+    ∧ (encPcmSetParams stream buffer period features channels format rate).length = 24 := by snd_enc
+
+theorem enc_xferHdr (stream : Nat) (h0 : stream < 2 ^ 32) :
+    specDecode Spec.pcmXfer (encXferHdr stream) = [stream] ∧ (encXferHdr stream).length = 4 := by snd_enc
+
+/-- the capabilities the driver stores are the specification's fields of the device's response -/
+theorem parsePcmInfo_spec (b : Bytes) :
+    let f := specDecode Spec.pcmInfo b
+    parsePcmInfo b = { features := f.getD 1 0, formats := f.getD 2 0, rates := f.getD 3 0,
+                       direction := f.getD 4 0, chMin := f.getD 5 0, chMax := f.getD 6 0 } := by
+  simp [parsePcmInfo, specDecode, Spec.pcmInfo]
+
+/-- only the status value `VIRTIO_SND_S_OK` counts as success -/
+theorem isOk_iff (r : Bytes) : isOk r = true ↔ fieldAt r 0 4 = Spec.VIRTIO_SND_S_OK := by
+  simp [isOk, S_OK, Spec.VIRTIO_SND_S_OK]
+
+/-- prepare / release / start / stop: any status other than OK ↦ `IoError` -/
+theorem pcmSimple_checks (dev : Dev) (c : Ctx) (code stream : Nat) (hs : c.st.setUp = true) :
+    (pcmSimple dev c code stream).2 = (if fieldAt (dev c.n (encPcmHdr code stream)) 0 4 = S_OK then .ok () else .err .ioError)
+    ∧ (pcmSimple dev c code stream).1.reqs = c.reqs ++ [encPcmHdr code stream] := by
+  simp only [pcmSimple, withSetUp, hs, ↓reduceIte, Ctx.request, isOk]
+  by_cases h : fieldAt (dev c.n (encPcmHdr code stream)) 0 4 = S_OK <;> simp [h]
+
+/-- `pcm_set_params`: any status other than OK ↦ `IoError`, and then the stream stays unconfigured -/
+theorem pcmSetParams_error (dev : Dev) (c : Ctx) (stream buffer period features channels format rate : Nat)
+    (hs : c.st.setUp = true) (hp : ¬ (period = 0 ∨ period > buffer ∨ buffer % period ≠ 0))
+    (hr : fieldAt (dev c.n (encPcmSetParams stream buffer period features channels format rate)) 0 4 ≠ S_OK) :
+    (pcmSetParams dev c stream buffer period features channels format rate).2 = .err .ioError
+    ∧ (pcmSetParams dev c stream buffer period features channels format rate).1.st.params = c.st.params := by
+  simp [pcmSetParams, withSetUp, hs, hp, Ctx.request, isOk, hr]
+
+/-- `set_up` fails (and with it the public operation) when the PCM info query is not answered OK -/
+theorem setUp_pcmInfo_error (dev : Dev) (c : Ctx)
+    (hj : infoQuery dev c R_JACK_INFO c.st.jacks JACK_INFO_SIZE ≠ ((infoQuery dev c R_JACK_INFO c.st.jacks JACK_INFO_SIZE).1, .panic))
+    (hr : fieldAt (dev (c.n + 1) (encQueryInfo R_PCM_INFO 0 c.st.streams PCM_INFO_SIZE)) 0 4 ≠ S_OK) :
+    (setUpDriver dev c).2 = .err .ioError := by
+  unfold setUpDriver
+  generalize hq : infoQuery dev c R_JACK_INFO c.st.jacks JACK_INFO_SIZE = q at hj
+  have hn : q.1.n = c.n + 1 ∧ q.1.st.streams = c.st.streams := by
+    subst hq; simp only [infoQuery, Ctx.request]; split <;> (try split) <;> simp
+  obtain ⟨c1, r1⟩ := q
+  cases r1 with
+  | panic => exact absurd rfl hj
+  | ok items =>
+    simp only [infoQuery, Ctx.request]
+    simp only at hn
+    simp [hn.1, hn.2, isOk, hr]
+  | err e =>
+    simp only [infoQuery, Ctx.request]
+    simp only at hn
+    simp [hn.1, hn.2, isOk, hr]
+
+/-- **set parameters before transfer** — the ordering the driver enforces through its own state:
+`pcm_xfer` on a stream without accepted parameters submits nothing and fails -/
+theorem xfer_requires_params (dev : Dev) (c : Ctx) (stream : Nat) (frames : Bytes) (script : List Act) (p : Params)
+    (hs : c.st.setUp = true) (hp : c.st.params[stream]? = some p) (hn : p.setup = false) :
+    (pcmXfer dev c stream frames script).2 = .err .ioError ∧ (pcmXfer dev c stream frames script).1.st.tx = c.st.tx := by
+  simp [pcmXfer, withSetUp, hs, hp, hn]
+
+theorem xferNb_requires_params (dev : Dev) (c : Ctx) (stream : Nat) (frames : Bytes) (p : Params)
+    (hs : c.st.setUp = true) (hp : c.st.params[stream]? = some p) (hn : p.setup = false) :
+    (pcmXferNb dev c stream frames).2 = .err .ioError ∧ (pcmXferNb dev c stream frames).1.st.tx = c.st.tx := by
+  simp [pcmXferNb, withSetUp, hs, hp, hn]
+
+/-- … and parameters are recorded only when the device answered `PCM_SET_PARAMS` with OK (see
+`pcmSetParams_error`), so a transfer is always preceded by an accepted `PCM_SET_PARAMS`. -/
+theorem pcmSetParams_ok_records (dev : Dev) (c : Ctx) (stream buffer period features channels format rate : Nat)
+    (hs : c.st.setUp = true) (hok : (pcmSetParams dev c stream buffer period features channels format rate).2 = .ok ()) :
+    fieldAt (dev c.n (encPcmSetParams stream buffer period features channels format rate)) 0 4 = S_OK
+    ∧ 0 < period := by
+  simp only [pcmSetParams, withSetUp, hs, ↓reduceIte, Ctx.request, isOk] at hok
+  split at hok
+  · simp at hok
+  · rename_i hp
+    split at hok
+    · rename_i h1; simp at h1; exact ⟨h1, by omega⟩
+    · simp at hok
+
+/-! ### chunking: for ALL frame lengths and ALL period sizes > 0 -/
+
+theorem chunksAux_flatten (p : Nat) (hp : 0 < p) : ∀ (fuel : Nat) (l : Bytes), l.length ≤ fuel →
+    (chunksAux p fuel l).flatten = l := by
+  intro fuel
+  induction fuel with
+  | zero => intro l h; simp at h; simp [chunksAux, h]
+  | succ n ih =>
+    intro l h
+    unfold chunksAux
+    by_cases hl : l = []
+    · simp [hl]
+    · simp only [hl, ↓reduceIte, List.flatten_cons]
+      have : (l.drop p).length ≤ n := by
+        have : 0 < l.length := List.length_pos_iff.mpr hl
+        simp only [List.length_drop]; omega
+      rw [ih _ this, List.take_append_drop]
+
+theorem chunksAux_bounds (p : Nat) (hp : 0 < p) : ∀ (fuel : Nat) (l : Bytes),
+    ∀ c ∈ chunksAux p fuel l, 0 < c.length ∧ c.length ≤ p := by
+  intro fuel
+  induction fuel with
+  | zero => intro l c hc; simp [chunksAux] at hc
+  | succ n ih =>
+    intro l c hc
+    unfold chunksAux at hc
+    by_cases hl : l = []
+    · simp [hl] at hc
+    · simp only [hl, ↓reduceIte, List.mem_cons] at hc
+      rcases hc with rfl | hc
+      · have : 0 < l.length := List.length_pos_iff.mpr hl
+        simp only [List.length_take]; omega
+      · exact ih _ c hc
+
+/-- the chunks concatenate to exactly the caller's frames (nothing lost, duplicated or reordered) -/
+theorem pcmChunks_concat (period : Nat) (frames : Bytes) (hp : 0 < period) :
+    (pcmChunks period frames).flatten = frames := by
+  simp only [pcmChunks, Nat.ne_of_gt hp, ↓reduceIte]
+  exact chunksAux_flatten period hp _ _ (Nat.le_refl _)
+
+/-- every chunk is non-empty and no larger than the configured period -/
+theorem pcmChunks_bounds (period : Nat) (frames : Bytes) (hp : 0 < period) :
+    ∀ c ∈ pcmChunks period frames, 0 < c.length ∧ c.length ≤ period := by
+  simp only [pcmChunks, Nat.ne_of_gt hp, ↓reduceIte]
+  exact chunksAux_bounds period hp _ _
+
+/-- each message placed on the tx queue is tagged: stream id header (the specification's
+`virtio_snd_pcm_xfer`), then one chunk, then room for the 8-byte status -/
+theorem xferIter_tags (stream : Nat) (x : XS) (c : Bytes) (rest : List Bytes)
+    (hr : x.remaining = c :: rest) (ha : availableDesc x.q ≥ 3) (q' : Q) (tok : Nat)
+    (hadd : add x.q [encXferHdr stream, c] [8] = .ok (q', tok)) :
+    q'.outstanding = x.q.outstanding ++ [{ tok := tok, ndesc := descsFor x.q 3, rd := [encXferHdr stream, c], wr := [8] }] := by
+  simp only [add] at hadd
+  split at hadd
+  · simp at hadd
+  · split at hadd
+    · simp at hadd
+    · simp only [Except.ok.injEq, Prod.mk.injEq] at hadd
+      obtain ⟨rfl, rfl⟩ := hadd
+      simp
+
+/-- never more outstanding than the queue holds: whenever the loop decides to add (three free
+descriptors by `available_desc`), `add` cannot fail with `QueueFull` -/
+theorem add_never_full (q : Q) (a b : Bytes) (n : Nat) (hq : q.numUsed ≤ q.size) (hs : 3 ≤ q.size)
+    (ha : availableDesc q ≥ 3) :
+    ∃ q' tok, add q [a, b] [n] = .ok (q', tok) ∧ q'.numUsed ≤ q'.size ∧ q'.size = q.size := by
+  by_cases hi : q.indirect = true
+  · have hne : q.numUsed ≠ q.size := by
+      intro h; simp [availableDesc, hi, h] at ha
+    have h1 : ¬ (q.numUsed + 1 > q.size ∨ 3 > q.size ∨ (q.indirect = false ∧ q.numUsed + 3 > q.size)) := by
+      simp [hi]; omega
+    simp only [add, List.length_cons, List.length_nil, Nat.zero_add, Nat.reduceAdd, Nat.succ_ne_zero, ↓reduceIte, h1]
+    refine ⟨_, _, rfl, ?_, rfl⟩
+    simp [descsFor, hi]; omega
+  · have hi' : q.indirect = false := by simpa using hi
+    have ha' : q.size - q.numUsed ≥ 3 := by simpa [availableDesc, hi'] using ha
+    have h1 : ¬ (q.numUsed + 1 > q.size ∨ 3 > q.size ∨ (q.indirect = false ∧ q.numUsed + 3 > q.size)) := by
+      simp [hi']; omega
+    simp only [add, List.length_cons, List.length_nil, Nat.zero_add, Nat.reduceAdd, Nat.succ_ne_zero, ↓reduceIte, h1]
+    refine ⟨_, _, rfl, ?_, rfl⟩
+    simp [descsFor, hi']; omega
+
+/-! ### F10: the full-strength delivery statement fails on the model exactly as on the code
+
+OPEN (does not hold for the code as it is; negation witnesses below):
+  ∀ q period frames script, let (x, r) := xferLoop s fuel (xferStart q period frames script);
+    r ≠ .fuel → sharedBuffers x.q = 0            -- "pcm_xfer never returns with buffers still shared"
+-/
+
+/-- negation witness 1 (the minimal history of F10): 64 frame bytes, period 16, the device completes the
+second chunk before the first ⇒ `WrongToken`, 3 chains = 9 buffers still shared -/
+example :
+    let x := xferLoop 0 (xferFuel 16 (pattern 64 7 3) [.idle, .complete 1 S_OK])
+      (xferStart { size := 32, indirect := false } 16 (pattern 64 7 3) [.idle, .complete 1 S_OK])
+    x.2 = .err (.q .wrongToken) ∧ sharedBuffers x.1.q = 9 := by decide
+
+/-- negation witness 2: error status for the first chunk while later chunks are outstanding ⇒ `IoError`,
+2 chains = 6 buffers still shared -/
+example :
+    let x := xferLoop 0 (xferFuel 16 (pattern 64 7 3) [.idle, .complete 0 0x8003])
+      (xferStart { size := 32, indirect := false } 16 (pattern 64 7 3) [.idle, .complete 0 0x8003])
+    x.2 = .err .ioError ∧ sharedBuffers x.1.q = 6 := by decide
+
+/-- non-vacuity of the in-order statement: the same transfer against an in-order all-OK device returns
+`Ok`, delivers the four chunks once each in order, tagged with the stream id, nothing left shared -/
+example :
+    let x := xferLoop 5 (xferFuel 16 (pattern 64 7 3) [.idle, .complete 0 S_OK, .idle, .all])
+      (xferStart { size := 32, indirect := false } 16 (pattern 64 7 3) [.idle, .complete 0 S_OK, .idle, .all])
+    x.2 = .ok ∧ sharedBuffers x.1.q = 0 ∧ (x.1.delivered.map (·.data)).flatten = pattern 64 7 3
+      ∧ x.1.delivered.all (fun d => d.stream == 5 && d.status == S_OK) = true := by decide
+
+end Sound
+
+/-! ## entropy, clock, 9P -/
+namespace Small
+open VirtioVerif.Small
+
+/-- entropy (§5.4): one device-writable buffer of the caller's length, no device-readable part; the
+result is the length the device reported, whatever it is -/
+theorem rng_request (len used : Nat) (h : 0 < len) :
+    Rng.requestEntropy len used = (some { rd := [], wr := [len] }, .ok used) := by
+  simp [Rng.requestEntropy, Nat.ne_of_gt h]
+
+theorem rtc_spec_tables_contiguous :
+    contiguous Rtc.Spec.reqCfg 0 8 ∧ contiguous Rtc.Spec.reqClockCap 0 16 ∧ contiguous Rtc.Spec.reqRead 0 16
+    ∧ contiguous Rtc.Spec.respCfg 0 16 ∧ contiguous Rtc.Spec.respClockCap 0 16
+    ∧ contiguous Rtc.Spec.respRead 0 16 := by decide
+
+theorem rtc_enc_cfg :
+    specDecode Rtc.Spec.reqCfg Rtc.encCfg = [Rtc.Spec.VIRTIO_RTC_REQ_CFG, 0] ∧ Rtc.encCfg.length = 8 := by
+  decide
+
+theorem rtc_enc_clockCap (id : Nat) (h : id < 2 ^ 16) :
+    specDecode Rtc.Spec.reqClockCap (Rtc.encClockCap id) = [Rtc.Spec.VIRTIO_RTC_REQ_CLOCK_CAP, 0, id, 0]
+    ∧ (Rtc.encClockCap id).length = 16 := by
+  simp [specDecode, Rtc.Spec.reqClockCap, Rtc.Spec.reqHead, Rtc.encClockCap, Rtc.encHead, Rtc.REQ_CLOCK_CAP,
+    Rtc.Spec.VIRTIO_RTC_REQ_CLOCK_CAP, le16, zeros, fieldAt, fromLE, List.replicate]
+  omega
+
+theorem rtc_enc_read (id : Nat) (h : id < 2 ^ 16) :
+    specDecode Rtc.Spec.reqRead (Rtc.encRead id) = [Rtc.Spec.VIRTIO_RTC_REQ_READ, 0, id, 0]
+    ∧ (Rtc.encRead id).length = 16 := by
+  simp [specDecode, Rtc.Spec.reqRead, Rtc.Spec.reqHead, Rtc.encRead, Rtc.encHead, Rtc.REQ_READ,
+    Rtc.Spec.VIRTIO_RTC_REQ_READ, le16, zeros, fieldAt, fromLE, List.replicate]
+  omega
+
+/-- of all status values only `VIRTIO_RTC_S_OK` (0) is accepted -/
+theorem rtc_status_ok_iff (status : Nat) : Rtc.statusResult status = none ↔ status = Rtc.Spec.VIRTIO_RTC_S_OK := by
+  simp only [Rtc.statusResult, Rtc.Spec.VIRTIO_RTC_S_OK]
+  constructor
+  · intro h; split at h <;> (try split at h) <;> (try split at h) <;> simp_all
+  · intro h; simp [h]
+
+/-- every clock operation fails for every non-OK status, and otherwise returns exactly the field of
+the response structure at the specification's position -/
+theorem rtc_read_result (clock : Nat) (rsp : Bytes) :
+    (Rtc.read clock rsp).1 = { rd := [Rtc.encRead clock], wr := [16] } ∧
+    (fieldAt (afterWrite 16 rsp) 0 1 ≠ 0 → ∃ e, (Rtc.read clock rsp).2 = .error e) ∧
+    (fieldAt (afterWrite 16 rsp) 0 1 = 0 →
+      (Rtc.read clock rsp).2 = .ok ((specDecode Rtc.Spec.respRead (afterWrite 16 rsp)).getD 2 0)) := by
+  refine ⟨rfl, ?_, ?_⟩
+  · intro h
+    have : Rtc.statusResult (fieldAt (afterWrite 16 rsp) 0 1) ≠ none := fun hn => h ((rtc_status_ok_iff _).1 hn)
+    simp only [Rtc.read, Rtc.request]
+    cases hs : Rtc.statusResult (fieldAt (afterWrite 16 rsp) 0 1) with
+    | none => exact absurd hs this
+    | some e => exact ⟨e, by simp [Except.map]⟩
+  · intro h
+    simp [Rtc.read, Rtc.request, h, Rtc.statusResult, Except.map, specDecode, Rtc.Spec.respRead, Rtc.Spec.respHead]
+
+theorem rtc_numClocks_result (rsp : Bytes) :
+    (Rtc.numClocks rsp).1 = { rd := [Rtc.encCfg], wr := [16] } ∧
+    (fieldAt (afterWrite 16 rsp) 0 1 ≠ 0 → ∃ e, (Rtc.numClocks rsp).2 = .error e) ∧
+    (fieldAt (afterWrite 16 rsp) 0 1 = 0 →
+      (Rtc.numClocks rsp).2 = .ok ((specDecode Rtc.Spec.respCfg (afterWrite 16 rsp)).getD 2 0)) := by
+  refine ⟨rfl, ?_, ?_⟩
+  · intro h
+    have : Rtc.statusResult (fieldAt (afterWrite 16 rsp) 0 1) ≠ none := fun hn => h ((rtc_status_ok_iff _).1 hn)
+    simp only [Rtc.numClocks, Rtc.request]
+    cases hs : Rtc.statusResult (fieldAt (afterWrite 16 rsp) 0 1) with
+    | none => exact absurd hs this
+    | some e => exact ⟨e, by simp [Except.map]⟩
+  · intro h
+    simp [Rtc.numClocks, Rtc.request, h, Rtc.statusResult, Except.map, specDecode, Rtc.Spec.respCfg, Rtc.Spec.respHead]
+
+theorem rtc_clockCap_error (clock : Nat) (rsp : Bytes) (h : fieldAt (afterWrite 16 rsp) 0 1 ≠ 0) :
+    ∃ e, (Rtc.clockCap clock rsp).2 = .error e := by
+  have : Rtc.statusResult (fieldAt (afterWrite 16 rsp) 0 1) ≠ none := fun hn => h ((rtc_status_ok_iff _).1 hn)
+  simp only [Rtc.clockCap, Rtc.request]
+  cases hs : Rtc.statusResult (fieldAt (afterWrite 16 rsp) 0 1) with
+  | none => exact absurd hs this
+  | some e => exact ⟨e, by simp⟩
+
+/-- 9P: the caller's message goes out verbatim as the single device-readable buffer, followed by the
+caller's response buffer; `Ok(n)` only when the response's 9P `size` field (offset 0, 4 bytes,
+little-endian) equals the length the device reported, and then `n` is that length -/
+theorem p9_request (req : Bytes) (respLen : Nat) (written : Bytes) (used : Nat)
+    (hr : req ≠ []) (hl : 7 ≤ respLen) :
+    (P9.request req respLen written used).1 = some { rd := [req], wr := [respLen] } ∧
+    (∀ n, (P9.request req respLen written used).2.1 = .ok n →
+      n = used ∧ (specDecode P9.Spec.header (afterWrite respLen written)).getD 0 0 = used) ∧
+    ((specDecode P9.Spec.header (afterWrite respLen written)).getD 0 0 ≠ used →
+      (P9.request req respLen written used).2.1 = .error .ioError) := by
+  have hc : ¬ (req = [] ∨ respLen < P9.P9_HEADER_SIZE) := by
+    simp [hr, P9.P9_HEADER_SIZE]; omega
+  simp only [P9.request, hc, ↓reduceIte, specDecode, P9.Spec.header, List.map_cons, List.getD_cons_zero]
+  refine ⟨by trivial, ?_, ?_⟩
+  · intro n h
+    split at h
+    · simp at h
+    · rename_i hs; simp at hs; simp at h; exact ⟨h.symm, hs⟩
+  · intro h; simp [h]
+
+theorem p9_request_refused (req : Bytes) (respLen : Nat) (written : Bytes) (used : Nat)
+    (h : req = [] ∨ respLen < 7) :
+    (P9.request req respLen written used).1 = none ∧ (P9.request req respLen written used).2.1 = .error .invalidParam := by
+  have : req = [] ∨ respLen < P9.P9_HEADER_SIZE := by simpa [P9.P9_HEADER_SIZE] using h
+  simp [P9.request, this]
+
+/-- the mount tag returned is exactly the `tag_len` bytes that follow the length field of
+`virtio_9p_config` -/
+theorem p9_mountTag (cfg tag : Bytes) (utf8 : Bytes → Bool) (h : P9.mountTag cfg utf8 = .ok tag) :
+    tag = (cfg.drop P9.Spec.configTagOff).take (fieldAt cfg P9.Spec.configTagLen.1 P9.Spec.configTagLen.2)
+    ∧ 0 < fieldAt cfg 0 2 ∧ 2 + fieldAt cfg 0 2 ≤ cfg.length := by
+  simp only [P9.mountTag] at h
+  repeat' split at h
+  all_goals simp at h
+  rename_i h1 h2 h3 h4 h5
+  refine ⟨by simp [P9.Spec.configTagOff, P9.Spec.configTagLen, ← h], by omega, by omega⟩
+
+end Small
 
 end VirtioVerif.Props.C20
